@@ -317,6 +317,14 @@ m("direction-asc-recorded-desc", ["C02"], "break", "parser.go",
 m("setop-except-recorded-intersect", ["C02"], "break", "parser.go",
   "		case \"EXCEPT\":\n			op = ast.SetOpExcept", "		case \"EXCEPT\":\n			op = ast.SetOpIntersect")
 
+m("hex-prefix-accepted", ["C14"], "break", "lexer.go",
+  "	if base == 16 && i == 2 {\n		// \"0x\" alone is not an integer literal, at least one hex digit has to follow the prefix.\n		if noPanic {\n			l.skipN(i)\n			l.Token.Kind = token.TokenBad\n			return\n		}\n		l.panicfAtPosition(token.Pos(l.pos), token.Pos(l.pos+i), \"invalid hex integer literal: no digits after %q\", l.slice(0, i))\n	}\n\n",
+  "", "reverts 7adf3ac: 0x lexes as <int>")
+m("hex-prefix-check-off-by-one", ["C14"], "break", "lexer.go",
+  "	if base == 16 && i == 2 {\n		// \"0x\"", "	if base == 16 && i < 2 {\n		// \"0x\"", "the check never fires")
+m("hex-prefix-check-le", ["C14", "C13", "C03"], "keep", "lexer.go",
+  "	if base == 16 && i == 2 {\n		// \"0x\"", "	if base == 16 && i <= 2 {\n		// \"0x\"")
+
 def sh(cmd, cwd=None):
     return subprocess.run(cmd, shell=True, cwd=cwd, capture_output=True, text=True)
 
